@@ -18,7 +18,7 @@ WATCHDOG_S = {"quick": 900, "thorough": 7200}
 RULE = ("case kinds by index: 0,1 mod 4 = container round trip (history end state of H/D/T/M, both formats); "
         "2 mod 4 = generated .hgr file; 3 mod 4 = generated HIF document. non-trivial = object/file has >=2 hyperedges "
         "and (round trip) non-empty metadata or an isolated node; distinct = by abstract content of the object/file")
-DECIDING = ["C06:roundtrip", "C06:save-does-not-mutate", "C06:file-records", "C06:hgr", "C06:hif"]
+DECIDING = ["C06:roundtrip", "C06:save-does-not-mutate", "C06:hgr", "C06:hif"]
 ASSUMPTIONS = ["node labels int or str, metadata JSON-representable; user metadata never uses the reserved keys weight/time/layer",
                ".hgr files use single-space separators in the header line; HIF documents carry nodes, edges and incidences arrays"]
 RESERVED = ("weight", "time", "layer")
@@ -142,6 +142,8 @@ def roundtrip_case(ctx, rng, idx, tmp):
             continue
         A, B = norm_state(G), norm_state(before)
         d = A.diff(B, with_hgmd=True) + P
+        if not d and any(A.edges[k][0] != B.edges[k][0] for k in A.edges):
+            d = ["weights(not bit-exact)"]  # a round trip must give the very same numbers back
         ctx.check("C06:roundtrip", not d, f"C06:{kind}:{fmt}:loaded-differs:" + ",".join(d),
                   lambda: dict(wit(), loaded=G.describe(), loaded_hgmd=G.hgmd))
         if fmt == "json":
@@ -158,13 +160,15 @@ def check_file_records(ctx, kind, path, before, wit):
         with open(path) as fh:
             items = json.load(fh)
     except Exception as e:
-        ctx.check("C06:file-records", False, f"C06:{kind}:json:file-not-json:{type(e).__name__}", wit)
+        ctx.note(f"diagnostic:{kind}:json:file-not-a-json-array")
         return
     nodes = [x for x in items if isinstance(x, dict) and x.get("type") == "node"]
     edges = [x for x in items if isinstance(x, dict) and x.get("type") == "edge"]
+    # the on-disk layout is not part of the property (only the round trip is): recorded as a diagnostic
     ok = sorted(map(repr, (x["idx"] for x in nodes))) == sorted(map(repr, before.nodes))
-    ctx.check("C06:file-records", ok, f"C06:{kind}:json:node-records-differ-from-nodes",
-              lambda: dict(wit(), file_nodes=[x["idx"] for x in nodes]))
+    ctx.tick("C06:file-records")
+    if not ok:
+        ctx.note(f"diagnostic:{kind}:json:node-records-differ-from-nodes")
     keys = []
     for x in edges:
         it, md = x["interaction"], x.get("metadata", {})
@@ -177,8 +181,9 @@ def check_file_records(ctx, kind, path, before, wit):
         else:
             keys.append((frozenset(it), md.get("layer")))
     ok = len(keys) == len(before.edges) and set(keys) == set(before.edges)
-    ctx.check("C06:file-records", ok, f"C06:{kind}:json:edge-records-differ-from-hyperedges",
-              lambda: dict(wit(), file_edges=[repr(sorted_key(k)) for k in keys]))
+    ctx.tick("C06:file-records")
+    if not ok:
+        ctx.note(f"diagnostic:{kind}:json:edge-records-differ-from-hyperedges")
 
 
 # ---------------------------------------------------------------------------------------
@@ -188,9 +193,14 @@ def hgr_case(ctx, rng, idx, tmp):
     n_nodes = rng.randint(2, 9)
     fmt = rng.choice([None, 1, 10, 11, None, 1])
     n_edges = rng.randint(1, 8)
+    big = idx in (2, 6) or (ctx.tier == "thorough" and idx % 400 == 10)
+    if big:  # files well beyond any internal buffer size
+        ctx.event("big-hgr-file")
+        n_nodes = rng.randint(40, 90)
+        n_edges = rng.randint(1500, 4000)
     edges, seen = [], set()
     for _ in range(n_edges):
-        e = rng.sample(range(1, n_nodes + 1), rng.randint(1, min(5, n_nodes)))
+        e = rng.sample(range(1, n_nodes + 1), rng.randint(1, min(5, n_nodes)) if not big else rng.randint(2, 6))
         if frozenset(e) in seen:
             continue
         seen.add(frozenset(e))
@@ -230,7 +240,7 @@ def hgr_case(ctx, rng, idx, tmp):
         fh.write(text)
 
     def wit(extra=None):
-        return {"file": text, "extra": extra}
+        return {"file": text if len(text) < 3000 else text[:1500] + " ...[%d chars]" % len(text), "extra": extra}
 
     try:
         g = load_hypergraph(path)
